@@ -1,6 +1,13 @@
 (* Extraction of the C08 models (bank names, channel maps) to OCaml, run by ocaml/run_c08.ml. *)
 From Coq Require Import Extraction ExtrOcamlBasic.
-From AG Require Import Base.Prelude Base.Res Base.Bytes Ident.Dispatch Ident.Names Ident.Maps.
+(* one module per line: tools/vlib.py derives the .vo files the runner needs from these lines (so that the model still
+   builds when a proof file breaks) and its pattern only recognises a single module per `Require` *)
+From AG Require Import Base.Prelude.
+From AG Require Import Base.Res.
+From AG Require Import Base.Bytes.
+From AG Require Import Ident.Dispatch.
+From AG Require Import Ident.Names.
+From AG Require Import Ident.Maps.
 
 Extraction Language OCaml.
 Extraction Blacklist String List Int Z Str Unix Array Bytes Char.
